@@ -12,6 +12,16 @@
 #include <fcppt/args_vector.hpp>
 #include <fcppt/make_ref.hpp>
 #include <fcppt/narrow.hpp>
+#include <fcppt/narrow_locale.hpp>
+#include <fcppt/from_std_string.hpp>
+#include <fcppt/from_std_string_locale.hpp>
+#include <fcppt/from_std_wstring.hpp>
+#include <fcppt/from_std_wstring_locale.hpp>
+#include <fcppt/to_std_string.hpp>
+#include <fcppt/to_std_string_locale.hpp>
+#include <fcppt/to_std_wstring.hpp>
+#include <fcppt/to_std_wstring_locale.hpp>
+#include <fcppt/widen_locale.hpp>
 #include <fcppt/reference_impl.hpp>
 #include <fcppt/runtime_index.hpp>
 #include <fcppt/text.hpp>
@@ -523,23 +533,107 @@ template <typename Index, Index Max> void runtime_index_n(char const *it)
 }
 
 // ------------------------------------------------------------------ narrow / widen (LC_ALL=C.utf8)
-void codecvt()
+// The string-conversion group.  In this build (FCPPT_NARROW_STRING) fcppt::string is std::string:
+//   wide -> narrow through impl::codecvt: narrow, narrow_locale, from_std_wstring(_locale)   (optional)
+//   narrow -> wide through impl::codecvt: widen, widen_locale, to_std_wstring(_locale)       (throw std::runtime_error)
+//   identities: to_std_string(_locale), from_std_string(_locale)
+// Records use f = "narrow" / "widen" / "string_id"; "fn" names the function that was called.
+struct glyph
+{
+  wchar_t wide;
+  char const *utf8;
+};
+constexpr glyph glyphs[] = {{L'a', "a"}, {static_cast<wchar_t>(0xE9), "\xC3\xA9"}, {static_cast<wchar_t>(0x65E5), "\xE6\x97\xA5"},
+                            {static_cast<wchar_t>(0x1F600), "\xF0\x9F\x98\x80"}};
+void narrow_all(std::wstring const &w, bool const wrappers)
+{
+  std::locale const loc("C.utf8");
+  auto const enc = [](fcppt::optional::object<std::string> const &r) { return r.has_value() ? value(vj::cps(r.get_unsafe())) : nothing(); };
+  std::string const base = ",\"s\":" + vj::cps(w);
+  total_call(fname("narrow") + ",\"fn\":\"narrow\"" + base, [&] { return enc(fcppt::narrow(w)); });
+  total_call(fname("narrow") + ",\"fn\":\"narrow_locale\"" + base, [&] { return enc(fcppt::narrow_locale(w, loc)); });
+  if (wrappers)
+  {
+    total_call(fname("narrow") + ",\"fn\":\"from_std_wstring\"" + base, [&] { return enc(fcppt::from_std_wstring(w)); });
+    total_call(fname("narrow") + ",\"fn\":\"from_std_wstring_locale\"" + base, [&] { return enc(fcppt::from_std_wstring_locale(w, loc)); });
+  }
+}
+void widen_all(std::string const &s, bool const wrappers)
+{
+  std::locale const loc("C.utf8");
+  std::string const base = ",\"s\":" + vj::cps(s);
+  total_call(fname("widen") + ",\"fn\":\"widen\"" + base, [&] { return value(vj::cps(fcppt::widen(s))); });
+  total_call(fname("widen") + ",\"fn\":\"widen_locale\"" + base, [&] { return value(vj::cps(fcppt::widen_locale(s, loc))); });
+  if (wrappers)
+  {
+    total_call(fname("widen") + ",\"fn\":\"to_std_wstring\"" + base, [&] { return value(vj::cps(fcppt::to_std_wstring(s))); });
+    total_call(fname("widen") + ",\"fn\":\"to_std_wstring_locale\"" + base, [&] { return value(vj::cps(fcppt::to_std_wstring_locale(s, loc))); });
+    total_call(fname("string_id") + ",\"fn\":\"to_std_string\"" + base, [&] {
+      auto const r = fcppt::to_std_string(s);
+      return r.has_value() ? value(vj::cps(r.get_unsafe())) : nothing();
+    });
+    total_call(fname("string_id") + ",\"fn\":\"to_std_string_locale\"" + base, [&] {
+      auto const r = fcppt::to_std_string_locale(s, loc);
+      return r.has_value() ? value(vj::cps(r.get_unsafe())) : nothing();
+    });
+    total_call(fname("string_id") + ",\"fn\":\"from_std_string\"" + base, [&] { return value(vj::cps(fcppt::from_std_string(s))); });
+    total_call(fname("string_id") + ",\"fn\":\"from_std_string_locale\"" + base, [&] { return value(vj::cps(fcppt::from_std_string_locale(s, loc))); });
+  }
+}
+void codecvt(c06::config const &cfg)
 {
   std::vector<std::string> bytes{"", "a", "abc", "\xC3\xA9", "a\xC3\xA9z", "\xE2\x82\xAC", "\xF0\x9F\x98\x80", "x\xF0\x9F\x98\x80y\xE2\x82\xAC",
                                  "\xC3", "a\xC3", "\xE2\x82", "\xF0\x9F\x98", "\x80", "a\x80", "\xFF", "\xC3\x28", "\xE2\x28\xA1", "\xC3\xA9\xC3",
                                  std::string(40, 'q'), std::string(13, 'q') + "\xE2\x82\xAC", "\xE2\x82\xAC\xE2\x82\xAC\xE2\x82\xAC\xE2\x82\xAC\xE2\x82\xAC"};
-  for (auto const &s : bytes)
-    total_call(fname("widen") + ",\"s\":" + vj::cps(s), [&s] { return value(vj::cps(fcppt::widen(s))); });
+  for (auto const &s : bytes) widen_all(s, true);
   std::vector<std::wstring> wides{L"", L"a", L"abc", L"é", L"aéz", L"€", L"\U0001F600", L"x\U0001F600y€", std::wstring(40, L'q'),
                                   std::wstring(5, L'€'), std::wstring(1, static_cast<wchar_t>(0xD800)), std::wstring(L"a") + static_cast<wchar_t>(0xDFFF),
                                   std::wstring(1, static_cast<wchar_t>(0x110000)), std::wstring(1, static_cast<wchar_t>(0x7FFFFFFF)),
                                   std::wstring(1, static_cast<wchar_t>(0x10FFFF)), std::wstring(1, static_cast<wchar_t>(0x7FF)), std::wstring(1, static_cast<wchar_t>(0x800)),
                                   std::wstring(1, static_cast<wchar_t>(0xFFFF)), std::wstring(1, static_cast<wchar_t>(0x10000))};
-  for (auto const &w : wides)
-    total_call(fname("narrow") + ",\"s\":" + vj::cps(w), [&w] {
-      auto const r = fcppt::narrow(w);
-      return r.has_value() ? value(vj::cps(r.get_unsafe())) : nothing();
-    });
+  for (auto const &w : wides) narrow_all(w, true);
+  // every string of length <= 6 (thorough 7) over a 1-, 2-, 3- and 4-byte character: the conversion buffer starts with
+  // one element per input character and grows while it holds data, in every pattern of widths
+  std::size_t const maxlen = cfg.tier == 0 ? 6 : 7;
+  std::vector<std::pair<std::wstring, std::string>> cur{{L"", ""}};
+  for (std::size_t l = 1; l <= maxlen; ++l)
+  {
+    std::vector<std::pair<std::wstring, std::string>> next;
+    for (auto const &p : cur)
+      for (glyph const &g : glyphs) next.emplace_back(p.first + g.wide, p.second + g.utf8);
+    for (auto const &p : next)
+    {
+      narrow_all(p.first, l <= 4);
+      widen_all(p.second, l <= 4);
+      // byte strings cut inside the last character
+      if (l <= 5)
+      {
+        std::size_t const last = std::strlen(glyphs[(&p - next.data()) % 4].utf8);
+        for (std::size_t cut = 1; cut < last; ++cut) widen_all(p.second.substr(0, p.second.size() - cut), false);
+      }
+    }
+    cur = next;
+  }
+  // seeded random strings of 7..40 characters, a whole string and one cut inside a character
+  vj::Rng rng(cfg.seed * 7919ULL + 17ULL);
+  unsigned const nrandom = cfg.tier == 0 ? 300U : 5000U;
+  for (unsigned i = 0; i < nrandom; ++i)
+  {
+    std::size_t const len = 7 + static_cast<std::size_t>(rng.below(34));
+    // bias towards one width per string so that long runs of wide characters occur
+    unsigned const bias = static_cast<unsigned>(rng.below(5));
+    std::wstring w;
+    std::string s;
+    for (std::size_t k = 0; k < len; ++k)
+    {
+      glyph const &g = glyphs[(bias < 4 && rng.below(4) != 0) ? bias : rng.below(4)];
+      w += g.wide;
+      s += g.utf8;
+    }
+    narrow_all(w, false);
+    widen_all(s, false);
+    if (static_cast<unsigned char>(s.back()) >= 0x80) widen_all(s.substr(0, s.size() - 1), false);
+  }
 }
 
 // ------------------------------------------------------------------ filesystem
@@ -761,7 +855,7 @@ int main(int argc, char **argv)
     runtime_index_n<std::uint8_t, 1>("u8"); runtime_index_n<std::uint8_t, 3>("u8"); runtime_index_n<unsigned, 1>("u32"); runtime_index_n<unsigned, 3>("u32");
     runtime_index_n<unsigned, 4>("u32"); runtime_index_n<std::uint64_t, 3>("u64");
   }
-  else if (sec == "codecvt") codecvt();
+  else if (sec == "codecvt") codecvt(cfg);
   else if (sec == "filesystem") filesystem_fns(scratch);
   else if (sec == "options") options_parse(cfg);
   else if (sec == "parse") parse_strings(cfg);
